@@ -30,11 +30,13 @@ m = {
     "setup_cmd": "cd /verif && GOFLAGS=-mod=mod GOPROXY=off GOSUMDB=off GOTOOLCHAIN=local sh bin/setup",
     "hooks": HOOKS,
     "engines": [
-        {"name": "E1", "path": "overlay/zzverif/props/e1.go", "serves_properties": ["C01", "C06", "C07", "C08", "C09", "C12"],
+        {"name": "E1", "path": "overlay/zzverif/props/{e1,c07,c11,c12}.go", "serves_properties": ["C01", "C06", "C07", "C08", "C09", "C11", "C12"],
          "kind_free_text": "sequential model-based state machine (rapid) under a virtual clock, instrumented scratch copy"},
-        {"name": "E2", "path": "overlay/zzverif/props/{gen,run,explore}.go", "serves_properties": ["C02", "C03", "C04", "C05", "C06", "C07", "C08", "C13", "C16"],
-         "kind_free_text": "generated concurrent programs x generated schedules under a cooperative deterministic scheduler, linearizability checker"},
-        {"name": "E3", "path": "overlay/zzverif/native", "serves_properties": ["C10", "C11", "C14", "C15"],
+        {"name": "E2", "path": "overlay/zzverif/props/{gen,run,explore,c16,e2l}.go", "serves_properties": ["C02", "C03", "C04", "C05", "C06", "C07", "C08", "C09", "C13", "C16"],
+         "kind_free_text": "generated concurrent programs x generated schedules under a cooperative deterministic scheduler, linearizability checker (E2L: long disjoint-key programs with per-thread sequential oracles)"},
+        {"name": "E2R", "path": "overlay/zzverif/props/c13re.go", "serves_properties": ["C13"],
+         "kind_free_text": "generated programs whose evicted callbacks and Range visitors call back with the whole vocabulary; termination oracle (deadlock, no-progress, panic) under generated schedules"},
+        {"name": "E3", "path": "overlay/zzverif/native", "serves_properties": ["C10", "C14", "C15"],
          "kind_free_text": "native runs on an unrewritten scratch copy (builtin-map differential, race detector, real-time janitor)"},
     ],
     "checks": checks,
